@@ -156,7 +156,20 @@ class Serializer:
         text_parent = x.name in ("w:t", "w:instrText", "w:delText")
         for c in x.children:
             if isinstance(c, XmlText):
-                t, d = self.text(sanitize(c.value))
+                val = sanitize(c.value)
+                if sp.comments and len(val) > 1 and sp.rng.random() < 0.2:
+                    # a comment (or PI) in the middle of character data splits it into two text nodes
+                    cut = sp.rng.randint(1, len(val) - 1)
+                    t1, d1 = self.text(val[:cut])
+                    t2, d2 = self.text(val[cut:])
+                    kids_txt += [t1, "<!--c-->", t2]
+                    for kind, s in d1:
+                        add_dom(kind, s)
+                    kids_dom.append(("comment", "c"))
+                    for kind, s in d2:
+                        add_dom(kind, s)
+                    continue
+                t, d = self.text(val)
                 kids_txt.append(t)
                 for kind, s in d:
                     add_dom(kind, s)
